@@ -200,7 +200,8 @@ def gen(rng, tier):
                    "_sig": "target|%s|%s" % (TG.type_sig(ty, 2), shape_of(src))}
 
 
-ODD = ["blank", "under", "caseless", "nested", "embedded", "ifaces", "funcs", "allunexp", "sliceodd", "mapodd", "ptrnested"]
+ODD = ["blank", "under", "caseless", "nested", "embedded", "ifaces", "funcs", "allunexp", "sliceodd", "mapodd", "ptrnested",
+       "unpackNoResult", "unpackNoParam", "unpackOther", "unpackHolder"]
 
 
 def odd_cases(rng, tier):
@@ -210,7 +211,8 @@ def odd_cases(rng, tier):
             M([("in", M([("a", U(1)), ("b", S("y"))])), ("l", A([M([("name", S("q"))]), M([("name", S("r"))])])), ("m", M([("k", M([("exported", U(1))]))])),
                ("p", M([("a", U(2))])), ("q", A([M([("name", S("a"))]), M([("name", S("b"))])]))]),
             M([("r", S("text")), ("s", U(1)), ("e", M([("z", U(1))]))]), M([("_cache", S("c")), ("_", U(1)), ("名前", S("n")), ("y", U(1)), ("oddinner", M([("y", U(1))]))]),
-            A([M([("a", U(1))]), M([("b", S("z"))])]), M([("k1", M([("name", S("v"))])), ("k2", M([]))]), M([("a", U(0))]), M([("f", U(1)), ("c", U(2)), ("a", U(5))])]
+            A([M([("a", U(1))]), M([("b", S("z"))])]), M([("k1", M([("name", S("v"))])), ("k2", M([]))]), M([("a", U(0))]), M([("f", U(1)), ("c", U(2)), ("a", U(5))]),
+            M([("x", M([("a", U(1))])), ("y", M([("a", U(2))])), ("m", M([("k", M([("a", U(3))]))])), ("n", U(4)), ("l", A([M([("a", U(5))])]))])]
     for nm in ODD:
         for src in srcs:
             if tier == "quick" and rng.chance(0.3):
